@@ -44,7 +44,6 @@ CONSTANTS Inst,       \* instance identifiers, 1..N
 VARIABLES desc, idx, ltc, cache, lbc, pend, nupd
 
 vars  == <<desc, idx, ltc, cache, lbc, pend, nupd>>
-cvars == <<desc, idx, ltc, cache, lbc>>
 
 None    == <<>>
 Some(x) == <<x>>
